@@ -258,6 +258,8 @@ Step(s, r, k) ==
     [] r.op = "GetSecretOrNone"     -> GetSecretOrNone(s, r.n)
     [] r.op = "CheckFutureSecret"   -> CheckFutureSecret(s, r.n, r.good)
     [] r.op = "ValidateHolder"      -> ValidateHolder(s, r.n, r.c, r.sig)
+    \* the raw-transaction (phase 1) entry point, given the canonical transaction of (n, c)
+    [] r.op = "ValidateHolderRaw"   -> ValidateHolder(s, r.n, r.c, r.sig)
     [] r.op = "Activate"            -> Activate(s)
     [] r.op = "Revoke"              -> Revoke(s, r.n, k.revokeChecksClosed)
     [] r.op = "SignHolder"          -> SignHolder(s, r.n)
@@ -317,7 +319,7 @@ Ghost(g, r, resp, ph, nhPre, mon) ==
   IF r.op = "HValidate" /\ r.sig = "good" /\ m1 /\ ~resp.ok
   THEN [g1 EXCEPT !.acceptedValid = @ \cup {r.n}]
   ELSE IF ~resp.ok THEN g1
-  ELSE CASE r.op \in {"ValidateHolder", "HValidate"} /\ r.sig = "good" /\ m1
+  ELSE CASE r.op \in {"ValidateHolder", "ValidateHolderRaw", "HValidate"} /\ r.sig = "good" /\ m1
               -> [g1 EXCEPT !.acceptedValid = @ \cup {r.n}]
          [] r.op \in {"SignHolder", "HSignHolder"} -> signed(r.n)
          [] r.op = "SignHolderRedundant" -> signed(r.n)
@@ -371,6 +373,8 @@ Requests(N, HC, CC, TT) ==
   \cup {[op |-> "CheckFutureSecret", n |-> n, good |-> b] : n \in {0, N}, b \in BOOLEAN}
   \cup {[op |-> "ValidateHolder", n |-> n, c |-> c, sig |-> sg] :
             n \in 0..N + 2, c \in HC, sg \in {"good", "badcommit", "badhtlc", "shorthtlc"}}
+  \cup {[op |-> "ValidateHolderRaw", n |-> n, c |-> c, sig |-> sg] :
+            n \in 0..N + 2, c \in HC, sg \in {"good", "badcommit"}}
   \cup {[op |-> "Activate"]}
   \cup {[op |-> "Revoke", n |-> n] : n \in 0..N + 1}
   \cup {[op |-> "SignHolder", n |-> n] : n \in 0..N + 1}
